@@ -24,13 +24,18 @@ def ill_formed(rnd, prog):
     pos = rnd.randint(2, len(prog))
     kind = rnd.choice(["undef", "undef-after-block", "break", "continue", "label", "return", "return-filter",
                        "matchtypes", "undef-in-fn", "return-in-block", "return-filter-in-fn",
-                       "return-filter-in-closure"])
+                       "return-filter-in-closure", "lvalue"])
     if kind == "undef":
         ins = [obs(bin_("+", ident("nosuchname"), I(1)))]
     elif kind == "undef-after-block":
         ins = [block([let("qq", I(1)), obs(ident("qq"))]), obs(ident("qq"))]
     elif kind == "undef-in-fn":
         ins = [fndef("ff9", ["a"], [expr(bin_("+", ident("a"), ident("later9")))]), let("later9", I(1))]
+    elif kind == "lvalue":
+        # nowhere to store: a literal, a call, a container literal, a predefined name
+        from ..past import asg, arr, call
+        tg = rnd.choice([lit({"k": "null"}), call("len", arr()), arr(I(1)), ident("stdout"), ident("len"), I(3)])
+        ins = [expr(if_(lit(vbool(False)), [expr(asg(tg, I(1)))]))]
     elif kind == "break":
         ins = [expr(if_(lit(vbool(False)), [brk()]))]
     elif kind == "continue":
